@@ -417,13 +417,16 @@ class Renderer:
         return best
 
     # -- blocks with entry/exit insertions
-    def render_block(self, blk, entry="", exit_=""):
+    def render_block(self, blk, entry="", exit_="", unit=False):
         assert blk["k"] == "Block", blk["k"]
         inner = self.render_children(blk, blk["s"] + 1, blk["e"] - 1)
         if exit_:
             stmts = [c for c in blk["c"] if c["k"].startswith("Stmt")]
             if stmts and stmts[-1]["k"] == "StmtExpr" and not stmts[-1].get("semi") and not self.blocklike(stmts[-1]):
-                die("%s: exit anchor after a tail expression" % self.fn.key)
+                if not unit:
+                    die("%s: exit anchor after a tail expression" % self.fn.key)
+                # a unit-typed tail expression: `e` -> `e;` (same value, ())
+                inner = inner.rstrip() + ";\n"
         return "{" + entry + inner + exit_ + "}"
 
     def block_of(self, n, span):
@@ -458,7 +461,8 @@ class Renderer:
         body = self.block_of(n, n["body"])
         head = self.render_children(n, n["s"], n["body"][0])
         return (self.stmt_text("loop", str(k), "before") + self.loop_attrs(k) + head + self.loop_spec(k)
-                + self.render_block(body, self.stmt_text("loop", str(k), "body_entry"), self.stmt_text("loop", str(k), "body_exit")))
+                + self.render_block(body, self.stmt_text("loop", str(k), "body_entry"), self.stmt_text("loop", str(k), "body_exit"))
+                + self.stmt_text("loop", str(k), "after"))
 
     def r_Loop(self, n):
         return self.r_While(n)
@@ -774,7 +778,7 @@ class Renderer:
             inner = self.render_children(body, body["s"] + 1, last["s"]) + bt + self.render_children(body, last["s"], body["e"] - 1)
             btxt = "{" + entry + inner + self.stmt_text("exit") + "}"
         else:
-            btxt = self.render_block(body, entry, self.stmt_text("exit"))
+            btxt = self.render_block(body, entry, self.stmt_text("exit"), unit="ret_ty" not in node)
         if self.self_name != "self":
             btxt = re.sub(r"\bself\b", "this", btxt)
             btxt = btxt.replace("let mut this = this;", "let mut this = self;", 1)
